@@ -12,6 +12,7 @@ import (
 	"verif/tools/internal/absint"
 	"verif/tools/internal/core"
 	"verif/tools/internal/ssax"
+	"verif/tools/internal/tables"
 )
 
 func init() { register("C09", "other", checkC09) }
@@ -507,6 +508,18 @@ func wholeInputRule(c *Ctx, r *core.Result, env *e3Env, lc *loopClass) {
 			}
 		}
 	}
+	boundedByTable = func(v ssa.Value) bool {
+		col, ok := tables.ColumnValues(p, v)
+		if !ok || len(col) == 0 {
+			return false
+		}
+		for _, cv := range col {
+			if _, isInt := cv.(int64); !isInt {
+				return false
+			}
+		}
+		return true
+	}
 	tokT := a.TypeName("sql.token")
 	tokFields = [2]string{a.Fields["xss.state.tokenStart"], a.Fields["xss.state.tokenLen"]}
 	n := 0
@@ -572,6 +585,9 @@ var tokFields [2]string
 
 // boundedText: v is a constant, a token value field, a slice with constant
 // bounds, or a library transformation of such.
+// boundedByTable: v is an integer read from a constant table (set per check run).
+var boundedByTable func(v ssa.Value) bool
+
 func boundedText(v ssa.Value, tokT string, depth int) bool {
 	if depth > 8 {
 		return false
@@ -582,6 +598,10 @@ func boundedText(v ssa.Value, tokT string, depth int) bool {
 	case *ssa.Slice:
 		if x.High != nil {
 			if _, ok := ssax.ConstInt(x.High); ok {
+				return true
+			}
+			// a window whose end is an entry of a constant table
+			if boundedByTable != nil && boundedByTable(x.High) {
 				return true
 			}
 			// the current HTML token: tokenStart[:tokenLen] of one tokenizer object
